@@ -859,6 +859,26 @@ func (x *Exec) havocLoop(st *State, li *loopInfo) {
 		if name == "" {
 			name = phi.Name()
 		}
+		if ev, ok := st.env[phi].(VSlice); ok && ev.Arr != nil && ev.Cap != nil && resliceOnly(li, phi) {
+			// The loop only narrows this slice (s = s[a:], s = s[:len(s)-c]): it stays a window of the same array
+			// within its bounds at loop entry. This is a fact about the shape of the code, not a contract.
+			lo, hi := FreshInt(name+".lo@loop"), FreshInt(name+".hi@loop")
+			switch resliceDir(li, phi) {
+			case 'L': // no slice expression in the loop has an upper bound: the end stays where it was
+				hi = ev.Hi
+			case 'R': // none has a (non-zero) lower bound: the start stays where it was
+				lo = ev.Lo
+			}
+			st.assume(And(Le(ev.Lo, lo), Le(lo, hi), Le(hi, ev.Hi)))
+			st.env[phi] = VSlice{Arr: ev.Arr, Lo: lo, Hi: hi, Cap: Sub(ev.Cap, Sub(lo, ev.Lo)), IsNil: ev.IsNil, Elem: ev.Elem}
+			nm := make(map[*ssa.Phi]VSlice, len(st.reslice)+1)
+			for k, v := range st.reslice {
+				nm[k] = v
+			}
+			nm[phi] = ev
+			st.reslice = nm
+			continue
+		}
 		entryProv := ""
 		if ev, ok := st.env[phi].(VSlice); ok && ev.Arr != nil {
 			entryProv = ev.Arr.Prov
@@ -882,6 +902,131 @@ func (x *Exec) havocLoop(st *State, li *loopInfo) {
 	if loopAllocates(li) {
 		st.alloc = FreshInt("alloc@loop")
 	}
+}
+
+// peek evaluates a side-effect-free value (a conversion, len / cap, integer arithmetic) that the loop header
+// computes from values available before the loop, without executing the header.
+func (x *Exec) peek(st *State, v ssa.Value, depth int) (res Value, ok bool) {
+	if r, ok := st.env[v]; ok {
+		return r, true
+	}
+	if depth > 4 {
+		return nil, false
+	}
+	defer func() {
+		if r := recover(); r != nil {
+			res, ok = nil, false
+		}
+	}()
+	switch in := v.(type) {
+	case *ssa.Const:
+		return x.constValue(in, st), true
+	case *ssa.Convert:
+		a, ok := x.peek(st, in.X, depth+1)
+		if !ok {
+			return nil, false
+		}
+		if _, isInt := a.(VInt); !isInt {
+			return nil, false
+		}
+		fi, fok := x.tinfo(in.X.Type())
+		ti, tok := x.tinfo(in.Type())
+		if !fok || !tok || fi.Kind == "float" || ti.Kind == "float" || fi.Kind == "string" || ti.Kind == "string" {
+			return nil, false
+		}
+		if ti.Width == 8 && (fi.Width < 8 || fi.Signed == ti.Signed) && (ti.Signed || !fi.Signed) {
+			return a, true
+		}
+		return VInt{wrap(ti, x.intOf(a))}, true
+	case *ssa.Call:
+		if b, isB := in.Call.Value.(*ssa.Builtin); isB && (b.Name() == "len" || b.Name() == "cap") && len(in.Call.Args) == 1 {
+			a, ok := x.peek(st, in.Call.Args[0], depth+1)
+			if !ok {
+				return nil, false
+			}
+			if _, isMap := a.(VMap); isMap {
+				return nil, false
+			}
+			r := x.builtin(st, b, []Value{a}, &in.Call, in)
+			return r, r != nil
+		}
+	}
+	return nil, false
+}
+
+// resliceOnly: every value the loop feeds back into the slice phi is the phi itself narrowed by 2-index slice
+// expressions whose upper bound, if present, is len(s) or len(s) - c with a constant c >= 0.
+func resliceOnly(li *loopInfo, phi *ssa.Phi) bool {
+	if _, ok := phi.Type().Underlying().(*types.Slice); !ok {
+		return false
+	}
+	isLenOf := func(v ssa.Value, of ssa.Value) bool {
+		c, ok := v.(*ssa.Call)
+		if !ok {
+			return false
+		}
+		b, ok := c.Call.Value.(*ssa.Builtin)
+		return ok && b.Name() == "len" && len(c.Call.Args) == 1 && c.Call.Args[0] == of
+	}
+	var derived func(v ssa.Value, depth int) bool
+	derived = func(v ssa.Value, depth int) bool {
+		if v == phi {
+			return true
+		}
+		sl, ok := v.(*ssa.Slice)
+		if !ok || depth > 4 || sl.Max != nil || !li.blocks[sl.Block()] {
+			return false
+		}
+		if sl.High != nil {
+			okHigh := isLenOf(sl.High, sl.X)
+			if b, ok := sl.High.(*ssa.BinOp); ok && b.Op == token.SUB && isLenOf(b.X, sl.X) {
+				if c, ok := b.Y.(*ssa.Const); ok && c.Value != nil && constant.Sign(c.Value) >= 0 {
+					okHigh = true
+				}
+			}
+			if !okHigh {
+				return false
+			}
+		}
+		return derived(sl.X, depth+1)
+	}
+	back := 0
+	for i, e := range phi.Edges {
+		if !li.blocks[phi.Block().Preds[i]] {
+			continue
+		}
+		back++
+		if !derived(e, 0) {
+			return false
+		}
+	}
+	return back > 0
+}
+
+// resliceDir: 'L' if the loop narrows the slice from the left only, 'R' from the right only, 0 otherwise.
+func resliceDir(li *loopInfo, phi *ssa.Phi) byte {
+	left, right := false, false
+	for b := range li.blocks {
+		for _, in := range b.Instrs {
+			if sl, ok := in.(*ssa.Slice); ok {
+				if sl.Low != nil {
+					if c, ok := sl.Low.(*ssa.Const); !ok || c.Value == nil || constant.Sign(c.Value) != 0 {
+						left = true
+					}
+				}
+				if sl.High != nil {
+					right = true
+				}
+			}
+		}
+	}
+	switch {
+	case left && !right:
+		return 'L'
+	case right && !left:
+		return 'R'
+	}
+	return 0
 }
 
 func loopAllocates(li *loopInfo) bool {
@@ -1002,12 +1147,41 @@ func (x *Exec) loopEnv(st *State, li *loopInfo) map[string]Value {
 				case *ssa.Const:
 					env["\\n"] = x.constValue(o, st)
 				default:
-					if v, ok := st.env[other]; ok {
+					if v, ok := x.peek(st, other, 0); ok {
 						env["\\n"] = v
 					}
 				}
 				break
 			}
+		}
+	}
+	if iv == nil {
+		// a loop that narrows a slice: the induction variable is the moving bound, relative to the slice at loop entry
+		for _, p := range phis {
+			cur, ok2 := st.env[p].(VSlice)
+			if !ok2 || cur.Arr == nil {
+				continue
+			}
+			ev, ok := st.reslice[p]
+			if !ok || ev.Arr != cur.Arr {
+				// on arrival at the loop (before its state is generalised) the slice is its own entry value
+				if !resliceOnly(li, p) {
+					continue
+				}
+				ev = cur
+			}
+			switch resliceDir(li, p) {
+			case 'L':
+				env["\\iv"] = VInt{Sub(cur.Lo, ev.Lo)}
+			case 'R':
+				env["\\iv"] = VInt{Sub(cur.Hi, ev.Lo)}
+			default:
+				continue
+			}
+			iv = p
+			env["\\k"] = env["\\iv"]
+			env["\\arr"] = ev
+			break
 		}
 	}
 	if _, ok := env["\\k"]; !ok {
@@ -1278,6 +1452,22 @@ func (x *Exec) load(st *State, addr Value, in ssa.Instruction, t types.Type) Val
 		case "cell":
 			return st.get(a.Obj).Val
 		}
+		if a.Obj.Kind == "buffer" {
+			// `x := *bytes.NewBuffer(s)`: copying a Buffer whose original is never used again is a move
+			if u, ok := in.(*ssa.UnOp); ok {
+				if c, ok := u.X.(*ssa.Call); ok && c.Referrers() != nil {
+					uses := 0
+					for _, r := range *c.Referrers() {
+						if _, dbg := r.(*ssa.DebugRef); !dbg {
+							uses++
+						}
+					}
+					if uses == 1 {
+						return VMoved{Obj: a.Obj}
+					}
+				}
+			}
+		}
 		panic("unsupported:load-of-whole-" + a.Obj.Kind)
 	case VFieldPtr:
 		c := st.get(a.Obj)
@@ -1322,6 +1512,15 @@ func (x *Exec) store(st *State, addr Value, v Value, in ssa.Instruction) {
 		if a.Obj.Kind == "cell" {
 			st.mut(a.Obj).Val = v
 			return
+		}
+		if mv, ok := v.(VMoved); ok && a.Obj.Kind == "buffer" {
+			if sti, ok := in.(*ssa.Store); ok {
+				if al, ok := sti.Addr.(*ssa.Alloc); ok {
+					// the local takes the place of the temporary it was initialised from (which is dead)
+					st.env[al] = VPtr{Obj: mv.Obj, IsNil: False}
+					return
+				}
+			}
 		}
 		panic("unsupported:store-to-whole-" + a.Obj.Kind)
 	case VFieldPtr:
